@@ -24,7 +24,7 @@ func genC18(r *Rng, tier string, o *Out) {
 		}
 		// a few rings larger than the packet size recorded in the buffer description (8192 by default), read in
 		// chunks of exactly that size (and its neighbours): no chunk size is special
-		big := r.Chance(2)
+		big := r.Chance(3)
 		if big {
 			capv = r.Pick(8193, 8200, 10000, 16384, 24581)
 		}
@@ -80,22 +80,23 @@ func genC18(r *Rng, tier string, o *Out) {
 			// a directed minority: writes that do not fit, reads past a stride boundary, a discard back onto
 			// that boundary (the known backwards move), then a write of the true room plus a little and a
 			// read of everything: after a backwards move the ring must still be a coherent FIFO
-			directed := r.Chance(6)
-			if directed {
-				allowRewind = true
-				nops = 4*r.Range(1, 3) + 4
-			}
+			directed := r.Chance(8) && !big
 			script := []int{}
 			if directed {
-				for j := 0; j < (nops-4)/4; j++ {
-					script = append(script, 45, 50, 45, 50) // write, read, write, read
+				allowRewind = true
+				for j := r.Range(2, 4); j > 0; j-- {
+					script = append(script, 45, 51) // a write of more than half the ring, then read everything
 				}
-				script = append(script, 50, 95, 41, 85) // read, discard, overfill write, read all
+				script = append(script, 95, 41, 85) // discard back onto a boundary, overfill write, read all
+				nops = len(script)
 			}
 			for k := 0; k < nops; k++ {
 				c := r.Intn(100)
 				if directed && k < len(script) {
 					c = script[k]
+				}
+				if big { // mostly writes of any length and chunk-constrained reads
+					c = r.Pick(10, 10, 10, 10, 70, 70, 70, 50, 85, 95)
 				}
 				switch {
 				case c < 40 || c == 41 || c == 45: // write
@@ -134,9 +135,24 @@ func genC18(r *Rng, tier string, o *Out) {
 					nw, _ := wr.Write(d)
 					written += nw
 					fmt.Fprintf(&sb, " W %s %d", hexs(d), nw)
+					if !directed && wr.BytesWriteable() == 0 && r.Chance(30) {
+						// the ring is exactly full: a reader that attaches now must find every byte
+						done++
+						cur = "O"
+						rd.Close()
+						rd, _ = ringbuffer.NewRingBuffer(raw, desc)
+						if err := rd.Open(); err != nil {
+							panic(err)
+						}
+						fmt.Fprintf(&sb, " O %d", rd.BytesReadable())
+					}
 				case c < 65: // read n
 					var sz int
-					switch r.Intn(5) {
+					sel := r.Intn(5)
+					if c == 51 {
+						sel = 2
+					}
+					switch sel {
 					case 0:
 						sz = rd.BytesReadable() // exactly empty it
 					case 1:
@@ -174,10 +190,18 @@ func genC18(r *Rng, tier string, o *Out) {
 					cp := append([]byte{}, d...)
 					readpos += len(cp)
 					fmt.Fprintf(&sb, " A %s", hexs(cp))
+				case c >= 97 && !directed: // the reader detaches and attaches again (Dastard stop/start): nothing may change
+					cur = "O"
+					rd.Close()
+					rd, _ = ringbuffer.NewRingBuffer(raw, desc)
+					if err := rd.Open(); err != nil {
+						panic(err)
+					}
+					fmt.Fprintf(&sb, " O %d", rd.BytesReadable())
 				default: // discard to stride (k>=1)
 					kk := r.Pick(1, 2, 3, 4, 8, 16)
 					if directed {
-						kk = r.Pick(8, 16, 32, capv, 2*capv-1)
+						kk = r.Pick(capv, capv, capv, capv-1, 32, 16)
 						if kk < 1 {
 							kk = 1
 						}
